@@ -38,6 +38,10 @@ CLAIMED = {
          "Exploration: every row of every layered dictionary must report the POS strings of its CSV row and split references resolved to the model's rows of the same user dictionary or the system one; every morpheme's dictionary id / word number must name a row whose key is its surface; OOV morphemes report -1 and a configured POS; every declared POS is retrievable; all observations on system words are identical with and without user dictionaries; a 15th user dictionary must be refused with an error. No absence claim.",
          "User dictionaries are compiled against the bare system dictionary, the only way callers do it. No input-text plugin is configured so that key == surface.",
          "DESIGN.md section 4, C12"),
+ "C13": ("property-based testing (proptest): generated char.def / unk.def / provider orders against a reference candidate enumerator; provider-level (public trait) and lattice-level (verif hook) set comparison",
+         "Exploration: for generated class definitions (multi-class characters, ALL, NOOOVBOW/2), invoke/group/length flags, unk.def lines, provider orders (MeCab, Regex strict/relaxed with maxLength, Simple) and texts (also runs beyond 64 characters) each provider's candidates at every offset with empty / non-empty created-length sets, and the lattice's node sets at every boundary, must equal the reference built from the left-to-right class runs, the created-lengths rule, the NOOOVBOW skip and the fallback re-invocation; OOV morphemes must report is_oov, dictionary -1, a configured POS and the normalised slice as forms. No absence claim.",
+         "can_bow is read from the built input buffer (oracle input). The regex provider is compared using the same regex crate. Candidates are compared as sets (multiplicity unspecified).",
+         "DESIGN.md section 4, C13"),
  "C17": ("property-based testing (proptest): generated definition files against a union-of-covering-lines reference; point queries at all range ends and neighbours, random scalars, and (thorough) every scalar value",
          "Exploration: for generated char.def files (overlapping, nested, adjacent, duplicated, single-point ranges around 0, the UTF-8 width boundaries, the surrogate gap and U+10FFFF; ALL and NOOOVBOW flags; comments and category lines) that load, the reported classes at every range end +-1, 0, U+10FFFF and 64 random scalars equal the union of covering lines (DEFAULT if none); the range iterator must be ordered, gap free and consistent with point queries. No absence claim.",
          "Files the loader rejects (reversed range, range ending at U+D7FF or U+10FFFF, unknown class) are not judged: the statement speaks about files that load. The iterator is only checked for files with at least one range line.",
